@@ -27,17 +27,21 @@ M_inner == MacroDef("@inner", <<>>, L(<<S("leave")>>))
 \* formal parameters with short names that also occur INSIDE other names of the body (a in rax, b in rbx)
 M_w     == MacroDef("@w", <<"a", "b">>, L(<<DMap1("$and", L(<<DMap1("mov", L(<<S("a"), S("b")>>)), DMap1("add", L(<<S("rax"), S("a")>>)),
                                                             DMap1("sub", L(<<S("b"), S("rbx")>>))>>))>>))
-AllMacros == <<M_one, M_grp, M_str, M_outer, M_inner, M_reg, M_z, M_two, M_w>>
+\* a string macro that is only ever used INSIDE a name, not at its start (`%r@lx'), listed last
+M_l     == MacroDef("@l", <<>>, S("a"))
+\* a repeated group (`times' as a sibling key) as a macro body: every reference must honour the bounds
+M_rep   == MacroDef("@rep", <<>>, L(<<DMap(<<DPair("$and", L(<<S("push"), S("pop")>>)), DPair("times", DInt(2))>>)>>))
+AllMacros == <<M_one, M_grp, M_str, M_outer, M_inner, M_reg, M_z, M_two, M_w, M_l, M_rep>>
 NM == Len(AllMacros)
 
 Call(name, args) == DMap(<<DPair(name, DNull)>> \o args)
 Uses == { S("@one"), S("@grp"), S("@str"), S("@strq"), DMap1("@str", DMap1("times", DInt(2))),
-          DMap1("push", L(<<S("@reg")>>)), DMap1("mov", L(<<S("@reg"), S("@regx")>>)),
+          DMap1("push", L(<<S("@reg")>>)), DMap1("mov", L(<<S("@reg"), S("@regx")>>)), DMap1("pop", L(<<S("%r@lx")>>)),
           Call("@z", <<DPair("p1", S("eax"))>>), Call("@z", <<DPair("p1", S("ebx"))>>),
           Call("@two", <<DPair("p1", S("eax")), DPair("p2", S("ebx"))>>),
           Call("@two", <<DPair("p1", S("ebx")), DPair("p2", S("eax"))>>),
           Call("@w", <<DPair("a", S("rcx")), DPair("b", S("rdx"))>>), Call("@w", <<DPair("a", S("rbx")), DPair("b", S("rcx"))>>),
-          S("@outer"), DMap1("$not", L(<<S("@grp")>>)), DMap1("$or", L(<<S("@one"), S("@str")>>)),
+          S("@outer"), S("@rep"), DMap1("$not", L(<<S("@grp")>>)), DMap1("$or", L(<<S("@one"), S("@str")>>)),
           DMap1("mov", L(<<DMap1("$deref", DMap(<<DPair("main_reg", S("@reg"))>>))>>)), S("ret") }
 Patterns == { L(s) : s \in UNION { [1..n -> Uses] : n \in 1..MaxUses } }
 
